@@ -620,23 +620,41 @@ def r_primalflow(ctx):
     if not unpacks or not all(isinstance(s.targets[0], ast.Tuple) and len(s.targets[0].elts) == 2 for s in unpacks):
         ctx.ob("R-PRIMALFLOW", "PEP.%s::primal variables unpacked" % root.name, False, "get_primal_variables is not unpacked into (G, F)", loc(root, root))
         return
-    names = {tuple(dotted(e) for e in s.targets[0].elts) for s in unpacks}
-    okn = len(names) == 1
-    ctx.ob("R-PRIMALFLOW", "PEP.%s::one pair of names" % root.name, okn, "the primal solution lives in one pair of locals" if okn else "several pairs of locals: %s" % sorted(names), loc(root, unpacks[0]))
-    if not okn:
+    publishes = [s0 for s0 in flow.stmts_of(root, ast.Assign) if any(dotted(t) in ("self.G_value", "self.F_value") for t in s0.targets)]
+    pub = {}
+    for s0 in publishes:
+        for t in s0.targets:
+            if dotted(t) in ("self.G_value", "self.F_value") and isinstance(s0.value, ast.Name):
+                pub[dotted(t)] = s0.value.id
+    if set(pub) != {"self.G_value", "self.F_value"}:
+        ctx.ob("R-PRIMALFLOW", "PEP.%s::published from locals" % root.name, False, "G_value / F_value are not published from two locals", loc(root, root))
         return
-    G, F = names.pop()
-    # every definition of G / F is such an unpack
-    for nm in (G, F):
-        defs = []
-        for s in flow.stmts_of(root, ast.Assign):
-            for t in s.targets:
-                for e in (t.elts if isinstance(t, ast.Tuple) else [t]):
-                    if dotted(e) == nm:
-                        defs.append(s)
-        foreign = [d for d in defs if d not in unpacks]
-        ctx.ob("R-PRIMALFLOW", "PEP.%s::%s only from the solver" % (root.name, nm), not foreign,
-               "`%s` is only ever the solver's primal solution" % nm if not foreign else
+    G, F = pub["self.G_value"], pub["self.F_value"]
+
+    def origins(name, seen=None):
+        """defining statements of a local, followed through plain copies (x = y) -- helper inlining introduces such copies"""
+        seen = seen if seen is not None else set()
+        if name in seen:
+            return []
+        seen.add(name)
+        out = []
+        for s0 in flow.stmts_of(root, ast.Assign):
+            for t in s0.targets:
+                if isinstance(t, ast.Name) and t.id == name:
+                    if isinstance(s0.value, ast.Name):
+                        out += origins(s0.value.id, seen)
+                    else:
+                        out.append((s0, None))
+                elif isinstance(t, ast.Tuple):
+                    for k, e in enumerate(t.elts):
+                        if isinstance(e, ast.Name) and e.id == name:
+                            out.append((s0, k))
+        return out
+    # every definition of G / F is an unpack of the solver's primal variables, at the right position
+    for nm, pos in ((G, 0), (F, 1)):
+        foreign = [d for d, k in origins(nm) if not (d in unpacks and k == pos)]
+        ctx.ob("R-PRIMALFLOW", "PEP.%s::%s only from the solver" % (root.name, "Gram matrix" if pos == 0 else "function values"), not foreign,
+               "the published %s is only ever the solver's primal solution" % ("Gram matrix" if pos == 0 else "function values") if not foreign else
                "`%s` is also assigned by `%s`: the published instance is then not the solver's solution (e.g. an eigenvalue-thresholded matrix)" % (nm, norm_stmt(foreign[0])[:70]),
                loc(root, foreign[0] if foreign else unpacks[0]))
     # every solve is followed by an unpack before the values are published
@@ -728,6 +746,11 @@ def r_heurcall(ctx):
         a = c.args[0] if c.args else None
         if a is None:
             continue
+        if isinstance(a, ast.Name):
+            # a local holding the weight: look through one plain definition
+            d0 = [s0 for s0 in flow.stmts_of(root, ast.Assign) if dotted(s0.targets[0]) == a.id]
+            if len(d0) == 1 and isinstance(d0[0].value, ast.Call) and call_name(d0[0].value) in ("identity", "eye"):
+                a = d0[0].value
         if isinstance(a, ast.Call) and call_name(a) in ("identity", "eye"):
             ok = src(a.args[0]) == "Point.counter"
             ctx.ob("R-HEURCALL", "PEP.%s::trace weight" % root.name, ok, "the trace heuristic minimises <I, G>" if ok else "the trace heuristic uses `%s`" % src(a), loc(root, c))
